@@ -13,6 +13,9 @@ import z3
 from .core import Ctx, PathAbort, ReplayDiverged, SymBool, SymInt, SymReal, close, TWIN_STATE
 
 
+SEED = int(os.environ.get("VERIF_SEED", "0") or 0)
+
+
 class Agg:
     """aggregated statistics of explored paths (mergeable, picklable)"""
 
@@ -38,6 +41,8 @@ class Agg:
         self.incomplete = False
         self.max_depth = 0
         self.nontrivial = 0
+        self.xcheck = {}  # solver -> {agree|DISAGREE|inconclusive: n}
+        self.xcheck_bad = []
 
     def merge(self, o):
         self.paths += o.paths
@@ -71,6 +76,11 @@ class Agg:
         self.incomplete = self.incomplete or o.incomplete
         self.max_depth = max(self.max_depth, o.max_depth)
         self.nontrivial += o.nontrivial
+        for k, d in o.xcheck.items():
+            t = self.xcheck.setdefault(k, {})
+            for a, b in d.items():
+                t[a] = t.get(a, 0) + b
+        self.xcheck_bad.extend(o.xcheck_bad)
 
 
 def _eval_obs(m, v):
@@ -160,6 +170,12 @@ def run_path(fn, cfg, prefix, draw_budget, agg, cfg_name, validate):
         agg.obl_time += secs
     for n in ctx.notes:
         agg.notes[n] = agg.notes.get(n, 0) + 1
+    for lab, st, res in ctx.xchecks:
+        for solver, verdict in res.items():
+            d = agg.xcheck.setdefault(solver, {})
+            d[verdict] = d.get(verdict, 0) + 1
+            if verdict == "DISAGREE" and len(agg.xcheck_bad) < 5:
+                agg.xcheck_bad.append({"label": lab, "z3-5.1": st, "solver": solver, "config": cfg_name})
     if status in ("done", "failed"):
         agg.paths += 1
         agg.decisions += len(ctx.trace)
@@ -264,7 +280,7 @@ def _worker(harness_path, jobs, results, tier, deadline, nworkers, validate_ever
                     break
                 p = stack.pop()
                 n += 1
-                validate = validate_every and (agg.paths < 3 or n % validate_every == 0)
+                validate = validate_every and (agg.paths < 3 or (n + SEED) % validate_every == 0)
                 try:
                     kids = run_path(mod.path, cfg, p, budget, agg, name, validate)
                 except Exception:  # noqa  harness error
